@@ -149,3 +149,9 @@ pub broadcast proof fn lemma_fourcc_roundtrip(v: u32)
     reveal(fourcc_of_u32);
     reveal(u32_of_fourcc);
 }
+
+// ---- ISO 639-2/T language packing (14496-12 8.4.2.3): pad bit + three 5-bit values, each = (letter - 0x60).
+// The two functions are uninterpreted here; the real language_code / language_string are ASSUMED to compute them (Verus)
+// and checked against the packing arithmetic by the Kani harnesses lang_* (C16).
+pub uninterp spec fn lang_code_spec(s: Seq<char>) -> u16;
+pub uninterp spec fn lang_string_spec(c: u16) -> Seq<char>;
